@@ -5,6 +5,7 @@ import Generated.C10
 import Proofs.LoaderArpa
 import Proofs.LoaderProbing
 import Proofs.LoaderTrieBuild
+import Proofs.LoaderProbingBuild
 import Proofs.Search
 import Proofs.WellFormed
 /-! C10 — Loaders reject malformed input with an exception and never misbehave.
@@ -109,10 +110,12 @@ example : (LoaderArpa.parse 6 true demoBytes).toOption.map (fun p => (p.order, p
 /-- trailing junk after a number stays in the stream: `-0.25a b` is the bigram `a b` with probability −1/4 -/
 example : (LoaderArpa.parse 6 true (str "\\data\\\nngram 1=2\nngram 2=1\n\n\\1-grams:\n-1\ta\n-2\tb\n\n\\2-grams:\n-0.25a b\n\n\\end\\\n")).toOption.map
     (fun p => p.grams.getD 1 []) = some [([2, 1], .fin (-1/4) false, 0)] := by decide +kernel
-/-- `-inf` is an accepted probability, `inf` as a back-off is a format error, `NaN` a parse error -/
+/-- `-inf` and `NaN` are accepted probabilities, `inf` / `NaN` as a back-off is a format error, a signed NaN a parse error -/
 example : (readNum (str "-inf\tx")).toOption.map (·.1) = some (.inf true) := by decide +kernel
 example : backoffOf (.inf false) = .error .format := rfl
-example : (match readNum (str "NaN\tx") with | .error .parse => true | _ => false) = true := by decide +kernel
+example : backoffOf .nan = .error .format := rfl
+example : (readNum (str "NaN\tx")).toOption.map (·.1) = some .nan := by decide +kernel
+example : (match readNum (str "-NaN\tx") with | .error .parse => true | _ => false) = true := by decide +kernel
 
 /-! ## the builders: every error class exactly under its condition -/
 
@@ -822,6 +825,88 @@ theorem duplicate_keys_of_buildTable_duplicate (p : LParsed) (u : Rat) (fadd : N
     (h : KV.TrieBuild.buildTable fadd p.order gs = .error .duplicate) : ¬ ((p.toArpa u).entries.map (·.1)).Nodup := by
   rw [← hk]
   exact KV.TrieBuild.buildTable_duplicate fadd p.order gs h
+
+/-! ## the loader model's probing verdict against `KV.ProbingBuild.build` (builder `lm`'s fold-level model of lm/search_hashed.cc)
+
+Two models of the same code: `ProbingBuild` runs real probing tables (hashes, payloads, marks), the loader model a list of keys.
+Full statement (kept visible; **not yet proved as a whole**): -/
+
+/-- **loader_probing_verdict_eq_build** (target statement).  For every parsed, finite file without repeated n-grams, an injective
+word-hash combiner and bucket counts `caps m = b(count_m)` (the highest order's table larger than its count): `ProbingBuild.build`
+never diverges, and it succeeds exactly when the loader model's probing verdict is `ok` (both raise otherwise; the *class* can
+differ only in files that have both a capacity overflow and a missing context, because the loader model tests capacity at the end
+of the run whereas the code stops at the first failure). -/
+def LoaderProbingVerdictEqBuild : Prop :=
+  ∀ (combine : Nat → Word → Nat), (∀ k1 k2 : List Word, KV.ProbingLM.hashOf combine k1 = KV.ProbingLM.hashOf combine k2 → k1 = k2) →
+  ∀ (maxO : Nat) (multOk : Bool) (s : Bytes) (p : LParsed) (u : Rat) (b : Nat → Nat),
+    LoaderArpa.parse maxO multOk s = .ok p → p.finite = true → ((p.toArpa u).entries.map (·.1)).Nodup →
+    p.counts.getD (p.order - 1) 0 < b (p.counts.getD (p.order - 1) 0) → (∀ c, 0 < b c) →
+    let buckets := (List.range (p.order - 1)).map fun i => b (p.counts.getD (i + 1) 0)
+    KV.ProbingBuild.build combine false (p.toArpa u) p.vocab.length buckets u ≠ .error .diverge ∧
+    ((∃ st, KV.ProbingBuild.build combine false (p.toArpa u) p.vocab.length buckets u = .ok st) ↔ buildCheck .probing b p = .ok ())
+
+/-- **loader_probing_verdict_eq_build, partial**: the three places where `ProbingBuild.addLine` can raise are tied to the loader
+model operation by operation, under the representation invariant `KV.LoaderPB.TabInv` (the tables of the `ProbingBuild` state hold
+exactly the loader model's keys, with its counters and capacities):
+* `store.Insert` of a fresh line raises `probingSize` ⇔ the loader model's key count of that order, with the line, reaches the
+  capacity; otherwise the invariant holds for the extended key list (`KV.LoaderPB.insert_sim`);
+* `FindLower` — blank chains of any length — either inserts exactly the blanks the loader model's `findLower` inserts (invariant
+  preserved) or raises `probingSize` at an order whose key count in the loader model reaches the capacity (`findLower_sim`);
+* `ActivateLowerMiddle` raises `format` ⇔ the context is not among the loader model's keys at that moment (`activate_sim`).
+**Missing for the whole-fold statement `LoaderProbingVerdictEqBuild`**: the frame lemma for `AdjustLower` / `fillBlanks` / `markChain`
+(they only update payloads through `St.modify` and every `find` succeeds under `OrdInv`, so no table and no verdict changes), and
+the assembly over the lines (freshness from distinct keys and the by-order line sequence; monotone key counts,
+`KV.LoaderPB.fold_suffix`, to pass from "capacity reached at some line" to the loader model's end-of-run test). -/
+theorem loader_probing_verdict_eq_build_partial (combine : Nat → Word → Nat)
+    (inj : ∀ k1 k2 : List Word, KV.ProbingLM.hashOf combine k1 = KV.ProbingLM.hashOf combine k2 → k1 = k2)
+    (N : Nat) (caps : Nat → Nat) (keys tops : List (List Word)) (s : KV.ProbingBuild.St) (g : List Word)
+    (inv : KV.LoaderPB.TabInv combine N caps keys tops s) :
+    -- Insert
+    (∀ e : Entry, 2 ≤ g.length → g.length ≤ N → g ∉ KV.LoaderPB.keysAt N keys tops g.length →
+      (KV.ProbingBuild.insPhase combine N s g e = .error .probingSize ↔
+        caps g.length ≤ KV.LoaderPB.cnt (KV.LoaderPB.keysAt N keys tops g.length) g.length + 1)) ∧
+    -- FindLower
+    (∀ (f : Nat) (between : List KV.ProbingBuild.Ref), f + 1 < N → f + 1 < g.length →
+      (∃ s' b', KV.ProbingBuild.findLower combine g f s between = .ok (s', b') ∧
+          KV.LoaderPB.TabInv combine N caps (LoaderArpa.findLower g (f + 1) keys) tops s' ∧ s'.uni = s.uni) ∨
+      (KV.ProbingBuild.findLower combine g f s between = .error .probingSize ∧
+          ∃ m, 2 ≤ m ∧ m < N ∧ caps m ≤ KV.LoaderPB.cnt (LoaderArpa.findLower g (f + 1) keys) m)) ∧
+    -- Activate
+    (3 ≤ g.length → g.length ≤ N →
+      (KV.ProbingBuild.activate combine g g.length s = .error .format ↔ g.tail ∉ keys)) :=
+  ⟨fun e h2 hN fresh => (KV.LoaderPB.insert_sim combine inj N caps keys tops s g e inv h2 hN fresh).1,
+   fun f between hf hg => KV.LoaderPB.findLower_sim combine inj N caps tops g f s between keys hf hg inv,
+   fun h3 hN => (KV.LoaderPB.activate_sim combine N caps keys tops s g inv h3 hN).1⟩
+
+/-- the invariant is inhabited: the empty tables `ProbingBuild.build` starts from represent the empty key lists -/
+theorem tabInv_initial (combine : Nat → Word → Nat) (N : Nat) (caps : Nat → Nat) (hN : 2 ≤ N) (hc : ∀ m, 0 < caps m)
+    (uni : List KV.ProbingBuild.W) :
+    KV.LoaderPB.TabInv combine N caps [] []
+      { uni := uni, mid := (List.range (N - 2)).map fun i => KV.ProbingBuild.emptyOrd (caps (i + 2)),
+        longest := KV.ProbingBuild.emptyOrd (caps N) } := by
+  refine ⟨by simp, ?_⟩
+  intro m h2 hmN
+  by_cases hm : m = N
+  · subst hm
+    refine ⟨fun _ => none, ?_, ?_, ?_, ?_⟩
+    · simpa [KV.ProbingBuild.tbl] using KV.ProbingBuild.emptyOrd_inv (caps m) (hc m)
+    · intro k _; simp [KV.LoaderPB.keysAt]
+    · simp [KV.ProbingBuild.tbl, KV.LoaderPB.keysAt, KV.LoaderPB.cnt, KV.ProbingBuild.emptyOrd, KV.Probing.emptyTable]
+    · simp [KV.ProbingBuild.tbl, KV.ProbingBuild.emptyOrd, KV.Probing.emptyTable]
+  · have hlt : m - 2 < N - 2 := by omega
+    have hget : ((List.range (N - 2)).map fun i => KV.ProbingBuild.emptyOrd (caps (i + 2))).getD (m - 2) default
+        = KV.ProbingBuild.emptyOrd (caps m) := by
+      rw [List.getD_eq_getElem?_getD, List.getElem?_map, List.getElem?_range hlt]
+      simp only [Option.map_some, Option.getD_some]
+      congr 2; omega
+    refine ⟨fun _ => none, ?_, ?_, ?_, ?_⟩
+    · simp only [KV.ProbingBuild.tbl, hm, ↓reduceIte, hget]
+      exact KV.ProbingBuild.emptyOrd_inv (caps m) (hc m)
+    · intro k _; simp [KV.LoaderPB.keysAt, hm]
+    · simp only [KV.ProbingBuild.tbl, hm, ↓reduceIte, hget]
+      simp [KV.LoaderPB.keysAt, hm, KV.LoaderPB.cnt, KV.ProbingBuild.emptyOrd, KV.Probing.emptyTable]
+    · simp only [KV.ProbingBuild.tbl, hm, ↓reduceIte, hget]
+      simp [KV.ProbingBuild.emptyOrd, KV.Probing.emptyTable]
 
 /-! ## no index leaves its region -/
 
